@@ -152,6 +152,7 @@ fn run<const N: usize>(s: &Scn) -> Result<(), String> {
             }
             5 => { v.clear(); m.clear(); }
             6 => { let c = v.clone(); let ci = ids::<N>(&c);
+                   if N == 0 { let total: u32 = CLONES.with(|c| c.borrow().values().sum()); if total as usize != len { return Err(format!("clone of {} zero-sized elements ran Clone {} times", len, total)); } }
                    let exp: Vec<u32> = m.iter().map(|x| x + CLONE_OFF::<N>()).collect();
                    if maskv::<N>(&ci) != maskv::<N>(&exp) { return Err(format!("clone holds {:?} expected {:?}", ci, exp)); } }
             7 => { // move the j-th element of another vector in (op 0 remove 1 swap_remove 2 pop)
@@ -264,6 +265,23 @@ fn fam_mismatch() -> Result<(), String> {
             if w.len() > w.capacity() { return Err("after the refused splice len > capacity".into()); }
         }
     } }
+    Ok(())
+}
+
+/// clones of shared iterators: taken in any cursor state they yield exactly the remaining items
+fn fam_iter_clone<const N: usize>() -> Result<(), String> {
+    for len in 0..=4usize { for f in 0..=len { for b in 0..=(len - f) {
+        let (v, m) = vec_of::<N>(len);
+        let mut it = v.iter(); let mut mi = m.iter();
+        for _ in 0..f { it.next(); mi.next(); }
+        for _ in 0..b { it.next_back(); mi.next_back(); }
+        let c = it.clone();
+        if c.len() != mi.len() { return Err(format!("clone after {} front / {} back steps on len {} reports len {} (original {})", f, b, len, c.len(), mi.len())); }
+        let got: Vec<u32> = c.map(|e| e.downcast_ref::<El<N>>().unwrap().id()).collect();
+        let want: Vec<u32> = mi.clone().cloned().collect();
+        if maskv::<N>(&got) != maskv::<N>(&want) { return Err(format!("clone after {} front / {} back steps on len {} yields {:?}, expected {:?}", f, b, len, got, want)); }
+        if it.len() != mi.len() { return Err("consuming the clone disturbed the original".into()); }
+    } } }
     Ok(())
 }
 
@@ -404,6 +422,25 @@ fn fam_stack() -> Result<(), String> {
     if v.downcast_ref::<u64>().unwrap().as_slice() != &before[..] { return Err("refused push changed the contents".into()); }
     let e: AnyVec<dyn Cloneable, Stack<64>> = AnyVec::new::<u64>();
     if catch_unwind(AssertUnwindSafe(|| { let _ = e.clone(); })).is_err() { return Err("clone of an empty Stack vector panicked".into()); }
+    // storage alignment for over-aligned element types, the vector placed at every admissible offset of an aligned arena
+    #[derive(Clone, Copy)] #[repr(align(64))] struct Al64([u8; 64]);
+    #[repr(align(64))] struct Arena([u8; 4096]);
+    macro_rules! placed { ($m:ty, $t:ty, $al:expr) => {{
+        let r = catch_unwind(|| -> Result<(), String> {
+            let mut arena = std::mem::MaybeUninit::<Arena>::uninit();
+            let base = arena.as_mut_ptr() as usize;
+            let mut off = 0;
+            while off + std::mem::size_of::<AnyVec<dyn None, $m>>() <= 2048 {
+                if (base + off) % std::mem::align_of::<AnyVec<dyn None, $m>>() == 0 {
+                    let p = (base + off) as *mut AnyVec<dyn None, $m>;
+                    unsafe { p.write(AnyVec::new::<$t>()); let a = (*p).downcast_ref::<$t>().unwrap().as_ptr() as usize; p.drop_in_place();
+                        if a % $al != 0 { return Err(format!("{} of an align({}) type placed at arena offset {}: storage pointer misaligned", stringify!($m), $al, off)); } }
+                }
+                off += 8;
+            }
+            Ok(()) });
+        match r { Ok(Ok(())) => {}, Ok(Err(e)) => return Err(e), Err(_) => return Err(format!("{} of an align({}) type: construction panicked", stringify!($m), $al)) } }}}
+    placed!(Stack<128>, Al32, 32); placed!(StackN<2, 128>, Al32, 32); placed!(Stack<128>, Al64, 64); placed!(StackN<1, 64>, Al64, 64);
     Ok(())
 }
 
@@ -536,6 +573,10 @@ fn fam_lazyall<const N: usize>() -> Result<(), String> {
             3 => { let h = v.remove(1); consume!(&h); drop(h); 2 }
             _ => { let h = v.pop().unwrap(); consume!(&h); drop(h); 3 }
         };
+        if N == 0 {
+            let total: u32 = CLONES.with(|c| c.borrow().values().sum());
+            if total != want { return Err(format!("zero-sized elements, source kind {}, consumption {}, chain depth {}: {} clones for 2 consumptions", src_kind, cons, depth, total)); }
+        }
         if N >= 4 {
             if clones(id) != want { return Err(format!("source kind {}, consumption {}, chain depth {}: source element cloned {} times for 2 consumptions", src_kind, cons, depth, clones(id))); }
             let others: u32 = CLONES.with(|c| c.borrow().iter().filter(|(k, _)| **k != id).map(|(_, v)| *v).sum());
@@ -550,8 +591,8 @@ fn fam_lazyall<const N: usize>() -> Result<(), String> {
 
 fn extra(s: &Scn) -> Option<Result<(), String>> {
     macro_rules! by_size { ($f:ident) => { match s.u("esz") { 1 => $f::<1>(), 3 => $f::<3>(), 12 => $f::<12>(), 16 => $f::<16>(), 24 => $f::<24>(), 160 => $f::<160>(), _ => $f::<8>() } } }
-    Some(match s.g("fam") { 11 => by_size!(fam_range), 12 => fam_mismatch(), 13 => by_size!(fam_iter), 14 => by_size!(fam_views).and_then(|_| fam_views::<3>()).and_then(|_| fam_views::<12>()),
-        15 => fam_swap(), 16 => by_size!(fam_rawparts), 20 => by_size!(fam_lazyall), 21 => fam_heap(), 17 => fam_growth(), 18 => fam_stack(), 19 => by_size!(fam_get), _ => return None })
+    Some(match s.g("fam") { 11 => by_size!(fam_range), 12 => fam_mismatch(), 13 => by_size!(fam_iter).and_then(|_| by_size!(fam_iter_clone)), 14 => by_size!(fam_views).and_then(|_| fam_views::<3>()).and_then(|_| fam_views::<12>()),
+        15 => fam_swap(), 16 => by_size!(fam_rawparts), 20 => if s.g("zst") == 1 { fam_lazyall::<0>() } else { by_size!(fam_lazyall) }, 21 => fam_heap(), 17 => fam_growth(), 18 => fam_stack(), 19 => by_size!(fam_get), _ => return None })
 }
 
 fn dispatch(s: &Scn) -> Result<(), String> {
